@@ -310,6 +310,7 @@ func singleState(a, b []byte, m align.SubstitutionMatrix, local bool) (float64, 
 // ---------------------------------------------------------------- matrices
 
 type matSpec struct {
+	scale    float64 // if non-zero, every entry is multiplied by it (exactly representable products)
 	alpha    []byte
 	gapOpen  float64
 	gapSign  int // -1: gap scores <= 0; 0: any sign
@@ -352,6 +353,11 @@ func genAlignMatrix(r *rand.Rand, sp matSpec) align.SubstitutionMatrix {
 		m[[2]byte{gapB, x}] = g2
 	}
 	m[[2]byte{gapB, gapB}] = sp.gapOpen
+	if sp.scale != 0 {
+		for key, v := range m {
+			m[key] = v * sp.scale
+		}
+	}
 	return m
 }
 
